@@ -6,17 +6,17 @@ from harness import pitkit
 
 INVS = ['TypeOK', 'NoResidue', 'RightOutcome']
 PROPS = ['OnceOnly', 'NoUnvalidatedData', 'BufferedValidated', 'BufferedIsDelivered', 'AllAndOnlyMatching', 'JunkInert']
-WITNESSES = ['W_DataAtDeadline', 'W_TimeoutWhileValidating', 'W_TwoSatisfied', 'W_NackOne', 'W_VFail', 'W_LateAwaitData']
+WITNESSES = ['W_DataAtDeadline', 'W_TimeoutWhileValidating', 'W_TwoSatisfied', 'W_NackOne', 'W_VFail', 'W_LateAwaitData', 'W_RaceData']
 
 JUNK_BASIC = ['6400', '0500', '0600', 'ff', '0a0102', '640350017f', '060107']
 
 
-def mc_cfg(name, front, entries, maxt, T, V, R='R_one', E='E_one', J='J_one', dev='NoDev', live=False, defer='Def_no',
+def mc_cfg(name, front, entries, maxt, T, V, R='R_one', E='E_one', J='J_one', dev='NoDev', live=False, defer='Def_no', races='Race_no',
            invs=INVS, props=PROPS):
     p = os.path.join(tlc.BUILD, name + '.cfg')
     tlc.write_cfg(p, constants={'Front': '"%s"' % front, 'MaxEntries': entries, 'MaxT': maxt,
                                 'Templates': '<- T_' + T, 'DataSet': '<- D_' + T, 'Verdicts': '<- V_' + V,
-                                'Reasons': '<- ' + R, 'Envs': '<- ' + E, 'Junk': '<- ' + J, 'Defer': '<- ' + defer, 'Dev': '<- ' + dev},
+                                'Reasons': '<- ' + R, 'Envs': '<- ' + E, 'Junk': '<- ' + J, 'Races': '<- ' + races, 'Defer': '<- ' + defer, 'Dev': '<- ' + dev},
                   invariants=invs, properties=list(props) + (['Finishes'] if live else []))
     return p
 
@@ -27,7 +27,7 @@ def trace_cfg(front, dev):
                   constants={'Front': '"%s"' % front, 'MaxEntries': 8, 'MaxT': 100000,
                              'Templates': '<- TrNone', 'DataSet': '<- TrNone', 'Verdicts': '<- TrVerdicts',
                              'Reasons': '<- TrReasons', 'Envs': '<- TrEnvs', 'Junk': '<- TrJunk',
-                             'Defer': '<- Def_both', 'Dev': '<- ' + ('DevLegacy' if dev == 'legacySlowValidator' else 'NoDev')},
+                             'Races': '<- Race_no', 'Defer': '<- Def_both', 'Dev': '<- ' + ('DevLegacy' if dev == 'legacySlowValidator' else 'NoDev')},
                   invariants=['TypeOK', 'NoResidue'], constraints=['Mark'], postcondition='Post')
     return p
 
@@ -66,7 +66,7 @@ def stage_a(ctx, configs, witnesses_front='v2'):
         if cov_total.get(a, 0) == 0:
             raise tlc.MachineryError('vacuous: NdnPit action %s never taken in stage A' % a)
     ctx.extra.setdefault('action_coverage', {}).update(cov_total)
-    wp = mc_cfg('pit-w', witnesses_front, 2, 3, 'small', 'v2two', invs=WITNESSES, props=[], defer='Def_both')
+    wp = mc_cfg('pit-w', witnesses_front, 2, 3, 'small', 'v2two', invs=WITNESSES, props=[], defer='Def_both', races='Race_one')
     check_witnesses('NdnPitMC', wp, WITNESSES)
 
 
@@ -82,16 +82,16 @@ def events_of_path(path, vmap=None):
             evs.append({'a': act, 't': a[0]})
         elif act == 'Await':
             evs.append({'a': act, 'e': a[0]})
-        elif act == 'RecvData':
-            evs.append({'a': act, 'd': a[0], 'env': a[1]})
+        elif act in ('RecvData', 'RecvDataX'):
+            evs.append({'a': 'RecvData', 'd': a[0], 'env': a[1], 'x': sorted(a[2]) if len(a) > 2 else []})
         elif act in ('ValFinish', 'LateFinish'):
             evs.append({'a': 'ValFinish', 'e': a[0], 'v': vmap.get(a[1], a[1])})
         elif act in ('Fire', 'Tick', 'Shutdown'):
             evs.append({'a': act})
         elif act == 'Cancel':
             evs.append({'a': act, 'e': a[0]})
-        elif act == 'RecvNack':
-            evs.append({'a': act, 't': a[0], 'r': a[1], 'env': a[2]})
+        elif act in ('RecvNack', 'RecvNackX'):
+            evs.append({'a': 'RecvNack', 't': a[0], 'r': a[1], 'env': a[2], 'x': sorted(a[3]) if len(a) > 3 else []})
         elif act == 'RecvJunk':
             evs.append({'a': act, 'j': 'junk', 'hex': JUNK_BASIC[len(evs) % len(JUNK_BASIC)]})
         else:
@@ -191,7 +191,7 @@ NAMES = [['a'], ['a', 'b'], ['a', 'b', 'c'], ['a', 'c'], ['b'], ['a', 'b', 'd']]
 
 
 def random_schedule(rng, front, n_events, weights=None, junk=None, verdicts=None, envs=('bare', 'lp', 'lph', 'lpo'),
-                    max_entries=6, defer_p=0.2):
+                    max_entries=6, defer_p=0.2, race_p=0.15):
     """Generates stimuli on the fly while running the real code (the driver needs to know which
     validators are in flight and which timers are due). Returns the recorded trace record."""
     w = dict(Express=5, RecvData=6, ValFinish=6, Time=6, Cancel=1, Shutdown=0.2, RecvNack=2, RecvJunk=1, Await=3)
@@ -250,13 +250,16 @@ def random_schedule(rng, front, n_events, weights=None, junk=None, verdicts=None
             elif a == 'RecvData':
                 name = rng.choice(NAMES)
                 d = {'name': name, 'id': rng.choice([1, 2]) + 10 * NAMES.index(name)}
-                emit({'a': a, 'd': d, 'env': rng.choice(envs)})
+                # sometimes the caller cancels an Interest in the very instant the packet is processed
+                x = [rng.choice(unfinished) + 1] if unfinished and rng.random() < race_p else []
+                emit({'a': a, 'd': d, 'env': rng.choice(envs), 'x': x})
             elif a == 'RecvNack':
                 if entries and rng.random() < 0.8:
                     t = rng.choice(entries)['t']
                 else:
                     t = {'name': rng.choice(NAMES), 'cbp': False, 'dig': 0, 'life': 1}
-                emit({'a': a, 't': t, 'r': rng.randint(1, 5), 'env': rng.choice(['lp', 'lph', 'lpo'])})
+                x = [rng.choice(unfinished) + 1] if unfinished and rng.random() < race_p else []
+                emit({'a': a, 't': t, 'r': rng.randint(1, 5), 'env': rng.choice(['lp', 'lph', 'lpo']), 'x': x})
             elif a == 'RecvJunk':
                 hx = (junk(rng) if junk else rng.choice(JUNK_BASIC))
                 hx, jc = hx if isinstance(hx, tuple) else (hx, 'junk')
